@@ -251,8 +251,19 @@ func (s *Server) verifyConsensusFieldMain(cp *params.CaravelParams, seedHeader *
 	if err != nil {
 		return err
 	}
+	// The committee sizes are fixed by the protocol version in force; the values the author
+	// wrote into the consensus data are only accepted if they are exactly those.
+	if cp == nil {
+		return errors.New("no protocol parameters for the header")
+	}
+	if consensusData.ProposerThreshold != cp.ProposerThreshold || consensusData.ValidatorThreshold != cp.ValidatorThreshold ||
+		consensusData.CertValThreshold != cp.CertValThreshold {
+		logging.Error("VerifyHeader failed, thresholds differ from the protocol's.", "Round", consensusData.Round, "RoundIndex", consensusData.RoundIndex,
+			"proposerTh", consensusData.ProposerThreshold, "validatorTh", consensusData.ValidatorThreshold, "certValTh", consensusData.CertValThreshold)
+		return errInvalidConsensusData
+	}
 	isValid, err := VrfVerifyPriority(vrfPK, seedCon.Seed, consensusData.RoundIndex, UConStepProposal, consensusData.SortitionProof,
-		consensusData.Priority, consensusData.SubUsers, consensusData.ProposerThreshold, validator.Stake, vs.GetStakeByKind(params.KindChamber))
+		consensusData.Priority, consensusData.SubUsers, cp.ProposerThreshold, validator.Stake, vs.GetStakeByKind(params.KindChamber))
 	if err != nil || !isValid {
 		logging.Error("VerifyHeader failed, priority is invalid.", "Round", consensusData.Round, "RoundIndex", consensusData.RoundIndex,
 			"hash", header.Hash().String(), "parent", header.ParentHash.String(), "stake", validator.Stake, "totalStake", vs.GetStakeByKind(params.KindChamber), "err", err)
@@ -275,7 +286,7 @@ func (s *Server) verifyConsensusFieldMain(cp *params.CaravelParams, seedHeader *
 		seed:               seedCon.Seed,
 		round:              consensusData.Round,
 		roundIndex:         ucValidators.RoundIndex,
-		validatorThreshold: consensusData.ValidatorThreshold,
+		validatorThreshold: cp.ValidatorThreshold,
 	}
 	err = s.verifyVotes(cd, ucValidators.ChamberCommitters, ucValidators.SCAggrSig, uint32(Precommit), params.KindChamber, true)
 	if err != nil {
@@ -465,6 +476,10 @@ func (s *Server) verifyVotes(cd *commonData, votes []SingleVote, asig []byte, st
 	}
 
 	if cd.cp.EnableBls {
+		if len(blspubs) == 0 {
+			// nothing to verify the aggregate against (and the BLS library dereferences nil on an empty key list)
+			return errInvalidConsensusData
+		}
 		logging.Debug("verifyBlsVotes before VerifyAggregatedN", "using", time.Now().Sub(start).String())
 		err = s.blsMgr.VerifyAggregatedOne(blspubs, payload, sig)
 		if err != nil {
